@@ -244,6 +244,15 @@ func (t *taskRun) direct() {
 		var r1, r2 sipsp.PsipURI
 		ok, e, w = sipsp.URIParseCmp(a, b, sipsp.URICmpFlags(s.N1), &r1, &r2)
 		t.out(b2i(ok), int64(e), int64(w))
+		// the parsed URIs it hands back are reported fields too: each must be readable against the
+		// text it was parsed from
+		outURI(t, &r1, a)
+		if t.viol == "" {
+			outURI(t, &r2, b)
+			if t.viol != "" {
+				t.viol += " (second URI returned by URIParseCmp, read against the second text)"
+			}
+		}
 	case "URIParamsEq":
 		o1, o2 := clampOffs(s.N1, len(a)), clampOffs(s.N2, len(b))
 		ok, e := sipsp.URIParamsEq(a, o1, b, o2)
